@@ -101,7 +101,7 @@ CLAIMED.update({
 CLAIMED.update({
  "C14": ("randomized concurrency testing (schedule sampling) under the Go race detector: rapid-generated timings of application sends vs refresh rounds / real ticker / peer close / concurrent Close calls; oracle = reference parsing of every datagram, ordering and counting invariants over the history, goroutine-leak and crash checks",
          "Hundreds (quick) to thousands (thorough) of generated timing cases at GOMAXPROCS 2/4/16 plus cases with the real 1 s ticker: every datagram is a complete well-formed message that is the application's next message or a retransmission of a template already sent (byte-identical), application messages stay in order with correct sequence numbers, every template is retransmitted the right number of times, a tcp peer close makes sends fail (and stay failed), concurrent repeated Close calls return, later sends fail, nothing is written afterwards, no exporter goroutine remains, and the race detector is silent. Schedules are sampled, not enumerated: an interleaving that needs a rare timing can be missed.",
-         "trusted: Go race detector (executed paths only); harness/refipfix; verif hook VerifSendRefreshedTemplates = the ticker body", "DESIGN.md section 3 C14 and section 5"),
+         "trusted: Go race detector (executed paths only); harness/refipfix; verif hooks VerifSendRefreshedTemplates = the ticker body, VerifWrapConn (a connection whose Close takes a while)", "DESIGN.md section 3 C14 and section 5"),
 })
 CLAIMED.update({
  "C12": ("randomized concurrency testing (schedule sampling) under the Go race detector: rapid-generated multi-client sessions over real sockets; oracle = per-connection ordering/exactly-once invariants over the delivery history, bounded-time shutdown, goroutine-leak and socket checks",
@@ -111,7 +111,7 @@ CLAIMED.update({
          "Hundreds (quick) to thousands (thorough) of generated programs with up to 6 ingesting goroutines (two of them per inter-node flow) or the built-in worker pool, and up to 6 goroutines scanning/querying/shifting time: for every stream and delta counter, ingested = exported in callbacks + remaining (no lost or doubled update), per-node totals and end times equal the stream's last record, no flow exported more often than time advanced, GetNumFlows within the certainly/possibly created bounds, Stop returns, race detector silent. Small histories (2..4 goroutines x 1..6 operations) are additionally checked for linearizability with porcupine against a sequential specification. Schedules are sampled.",
          "trusted: Go race detector; the workload keeps each reporting stream in order (the library drops records older than the stream's latest by design)", "DESIGN.md section 3 C13 and section 5"),
 })
-HOOK_COMMITS = ["bde829d", "7b897fc", "836c091"]
+HOOK_COMMITS = ["bde829d", "7b897fc", "836c091", "f1e6658"]
 
 checks = []
 for p in props:
